@@ -262,4 +262,56 @@ func TestC06(t *testing.T) {
 		Cases: hx.Pick(1200, 100000),
 		Gen:   c06Gen, Run: c06Run,
 	}.Execute(t)
+	if t.Failed() {
+		return
+	}
+	// a sublayout is a layout: its expiry counts like the root's (builder of C08)
+	hx.Check[c08Case]{
+		Property: "C06", Part: "sublayout-expiry",
+		Rule:  "nested supply chains (builder of C08) without any other defect in which one sublayout, at any depth, of one functionary is expired or not; accept iff no counted sublayout is expired (an expired sublayout that does not count while the others meet the threshold is absorbed); non-trivial = an expired sublayout; distinct by case JSON",
+		Cases: hx.Pick(120, 15000),
+		Gen: func(t *rapid.T) c08Case {
+			c := c08Gen(t)
+			clearDefects(&c.Root)
+			c.Evil, c.ParentMismatch, c.ParentForbids = false, false, false
+			if rapid.IntRange(0, 3).Draw(t, "expire") > 0 {
+				var sites [][]int
+				var walk func(lv *c08Level, prefix []int)
+				walk = func(lv *c08Level, prefix []int) {
+					for i := range lv.Steps {
+						p := append(append([]int{}, prefix...), i)
+						if lv.Steps[i].Sub != nil {
+							sites = append(sites, p)
+							walk(lv.Steps[i].Sub, p)
+						}
+					}
+				}
+				walk(&c.Root, nil)
+				if len(sites) > 0 {
+					st := c08StepAt(&c.Root, sites[rapid.IntRange(0, len(sites)-1).Draw(t, "site")])
+					st.Defect = "sub-expired"
+					st.DefectAt = rapid.IntRange(0, len(st.Functionaries)-1).Draw(t, "whose")
+				}
+			}
+			return c
+		},
+		Run: func(c c08Case, r *hx.Rec) error {
+			inner := &hx.Rec{}
+			err := c08Run(c, inner)
+			expired := false
+			for _, l := range inner.Labels() {
+				if l == "defect=sub-expired" {
+					expired = true
+				}
+			}
+			r.Label("expired-sublayout=%v", expired)
+			if inner.WasUnasserted() {
+				r.Unasserted()
+			}
+			if expired {
+				r.Nontrivial()
+			}
+			return err
+		},
+	}.Execute(t)
 }
